@@ -136,7 +136,7 @@ theorem C10_predicate_inclusions (c : Int) :
     (isProblemInfeasible c = true → isProblemInfOrUnb c = true) ∧
     (isProblemUnbounded c = true → isProblemInfOrUnb c = true) ∧
     (isProblemIndiffInfOrUnb c = true → isProblemInfOrUnb c = true) ∧
-    (isProblemSolvedOrFeasible c = true → isProblemInfOrUnb c = false) := by
+    (isProblemSolved c = true → isProblemInfOrUnb c = false) := by
   refine ⟨?_, ?_, ?_, ?_, ?_⟩
   all_goals (intro h; try rw [Bool.eq_false_iff]; try intro h2); c10_unfold_gen; omega
 
@@ -190,12 +190,13 @@ theorem C10_objective_only_if (a : Answer) (h : (report a).objectiveShown = true
 theorem C10_no_objective_no_value (a : Answer) (h : a.nObj = 0) : (report a).objectiveShown = false := by
   unfold report; simp [h]
 
-/-! ## non-vacuity -/
-example : isProblemSolved 0 = true ∧ isProblemSolved 99 = true ∧ isProblemSolved 100 = false := by decide
-example : classify 402 = .limitFeas ∧ classify 1000 = .unclassified ∧ classify (-1) = .unclassified := by decide
-example : (report ⟨0, 1, true, true, false⟩).objectiveShown = true := by decide
-example : (report ⟨402, 1, true, false, false⟩).objectiveShown = false := by decide
-example : (report ⟨567, 0, false, true, false⟩).codeWritten = 567 := by decide
-example : ∃ c, documented c = .infeasible ∧ isProblemInfeasible c = true := ⟨200, by decide⟩
+/-! ## non-vacuity (concrete instances; named so that a failure is attributed to them) -/
+theorem C10_witness_solved : isProblemSolved 0 = true ∧ isProblemSolved 99 = true ∧ isProblemSolved 100 = false := by decide
+theorem C10_witness_ranges : classify 402 = .limitFeas ∧ classify 1000 = .unclassified ∧ classify (-1) = .unclassified := by decide
+theorem C10_witness_objective :
+    (report ⟨0, 1, true, true, false⟩).objectiveShown = true ∧ (report ⟨250, 1, true, false, false⟩).objectiveShown = false ∧
+    (report ⟨0, 0, true, true, false⟩).objectiveShown = false := by decide
+theorem C10_witness_code : (report ⟨567, 0, false, true, false⟩).codeWritten = 567 := by decide
+theorem C10_witness_infeasible : ∃ c, documented c = .infeasible ∧ isProblemInfeasible c = true := ⟨200, by decide⟩
 
 end MpVerif.C10
